@@ -238,8 +238,9 @@ each once. -/
 theorem plane_find {p L} (h : Reach p L) (q : Rect) (hq : WfRect q) :
     (∀ o, o ∈ Plane.find p q ↔ (o ∈ L ∧ overlaps o q = true)) ∧ (Plane.find p q).Nodup := by
   have inv := inv_of_reach h
-  refine ⟨fun o => ?_, List.Pairwise.filter _ (nodup_dedup _)⟩
-  simp only [Plane.find, List.mem_filter, mem_dedup, List.mem_flatMap, mem_cell]
+  refine ⟨fun o => ?_, nodup_find_of_scan (List.Pairwise.filter _ (nodup_dedup _))⟩
+  rw [mem_find]
+  simp only [Plane.findScan, List.mem_filter, mem_dedup, List.mem_flatMap, mem_cell]
   constructor
   · rintro ⟨⟨k, _, hk⟩, hov⟩
     refine ⟨?_, hov⟩
@@ -265,6 +266,33 @@ theorem plane_find_eq_bruteforce {p L} (h : Reach p L) (q : Rect) (hq : WfRect q
     o ∈ Plane.find p q ↔ o ∈ Plane.findSpec p q := by
   rw [(plane_find h q hq).1 o]
   simp only [Plane.findSpec, List.mem_filter, (inv_of_reach h).live]
+
+/-- **find = brute force, as a LIST.**  After the repair of `Plane.find` (objects are reported in
+insertion order, not in the scan order of the grid cells) the result of `find` is literally the
+brute-force list: the live objects that properly overlap the query, in insertion order.  The result
+therefore does not depend on the grid size or on where the grid falls. -/
+theorem plane_find_order {p L} (h : Reach p L) (q : Rect) (hq : WfRect q) :
+    Plane.find p q = Plane.findSpec p q := by
+  have inv := inv_of_reach h
+  have hseq : p.seq.Nodup := by
+    refine inv.ids.imp ?_
+    intro a b hab heq
+    exact hab (by rw [heq])
+  have hpf := plane_find h q hq
+  have hspecNodup : (Plane.findSpec p q).Nodup := by
+    unfold Plane.findSpec Plane.iter
+    exact (hseq.filter _).filter _
+  have hperm : (Plane.find p q).Perm (Plane.findSpec p q) :=
+    (List.perm_ext_iff_of_nodup hpf.2 hspecNodup).mpr (fun o => plane_find_eq_bruteforce h q hq o)
+  have hsub : ∀ o ∈ Plane.findSpec p q, o ∈ p.seq := by
+    intro o ho
+    simp only [Plane.findSpec, Plane.iter, List.mem_filter] at ho
+    exact ho.1.1
+  refine List.Perm.eq_of_pairwise ?_ (sortByKey_sorted _ _) ?_ hperm
+  · intro a b ha hb h1 h2
+    exact rank_inj hseq (hsub a (hperm.subset ha)) (hsub b hb) (Nat.le_antisymm h1 h2)
+  · unfold Plane.findSpec Plane.iter
+    exact ((seq_rank_sorted hseq).filter _).filter _
 
 /-- **Iteration order.**  Iterating yields the live objects in insertion order. -/
 theorem plane_iter {p L} (h : Reach p L) : Plane.iter p = L := (inv_of_reach h).live
